@@ -279,8 +279,10 @@ class ExprMixin:
                 elems = [self.read_elem(l), self.read_elem(r)]
                 o = self.new_container("list", node, elem=join_all(elems))
                 return Val(refs=[o.oid], deps=l.deps | r.deps)
-        if isinstance(node.op, (ast.BitAnd, ast.BitOr, ast.BitXor, ast.Sub)) and (l.refs or r.refs) and all(
-                self.obj(o).cls == "set" for o in l.refs | r.refs):
+        if isinstance(node.op, (ast.BitAnd, ast.BitOr, ast.BitXor, ast.Sub)) and (l.refs or r.refs) and (
+                all(self.obj(o).cls == "set" for o in l.refs | r.refs) or "keys" in (l.tags | r.tags) and all(
+                    self.obj(o).cls in ("set", "list", "tuple") for o in l.refs | r.refs)):
+            # (a dictionary keys view combined with & | - ^ gives a plain set as well)
             # set algebra: a fresh set whose elements come from the operands
             elems = [self.read_elem(x) for x in (l, r) if x.refs]
             o = self.new_container("set", node, elem=join_all(elems))
